@@ -79,6 +79,17 @@ pub fn generate(rng: &mut Rng, tier: Tier, stats: &mut GenStats) -> Scenario {
             break;
         }
     }
+    // a path walk of a regular file yields just that file
+    if w.source == Source::Path && g.rng.chance(4, 100) {
+        let files: Vec<&Node> = tree
+            .iter()
+            .filter(|n| n.kind == Kind::File && Gen::plain_dirs(&model).contains(&parent(&n.path).to_string()))
+            .collect();
+        if !files.is_empty() {
+            w.base = g.rng.pick(&files).path.clone();
+            w.spelling = if g.rng.chance(1, 2) { Spelling::Absolute } else { Spelling::Relative };
+        }
+    }
     let prefix_len = match &w.source {
         Source::Glob { expr, .. } => expr.split('/').take_while(|c| !c.is_empty() && !c.contains(['*', '?', '[', '{', '<', '('])).count(),
         _ => 0,
@@ -298,6 +309,9 @@ pub fn check(sc: &Scenario, env: &mut Env) -> Result<Outcome, HarnessError> {
             out.nontrivial = true;
         }
         walker_probes(w, &mut out);
+        if !model.is_dir_node(&w.base) {
+            out.probe("base:regular-file");
+        }
         out.probe(format!(
             "depth:{}",
             match w.depth {
